@@ -412,4 +412,69 @@ def opsRat (nrm2 : Array Rat → Rat) : DropOps Rat Rat Rat :=
     isZero := fun t => t == 0
     negCount := fun k => -(k : Rat) }
 
+
+/-! ### the complex files (`ilu_[cz]drop_row`) -/
+section cplx
+variable {R : Type} [Inhabited R] [Zero R] [One R] [Neg R] [Add R] [Mul R] [Div R] [LT R] [DecidableLT R] [LE R] [DecidableLE R] [BEq R]
+
+/-- `dcabs1_` (CBLAS/dcabs1.c): `abs(re) + abs(im)` with f2c's `abs` -/
+def cabs1F (z : Cx R) : R := f2cAbs z.re + f2cAbs z.im
+
+/-- `dzasum_` with a stride ≠ 1 (CBLAS/dzasum.c:31-36): `stemp += dcabs1(zx)` -/
+def casumG (x : Array (Cx R)) : R := x.foldl (fun acc v => acc + cabs1F v) 0
+
+/-- `izamax_` with a stride ≠ 1 (CBLAS/izamax.c:36-48), zero-based -/
+def icamaxG (x : Array (Cx R)) : Nat :=
+  if x.size ≤ 1 then 0 else
+  ((List.range (x.size - 1)).foldl (fun (acc : Nat × R) t =>
+    let i := t + 1
+    if cabs1F x[i]! ≤ acc.2 then acc else (i, cabs1F x[i]!)) (0, cabs1F x[0]!)).1
+
+/-- the scale/ssq loop of `dznrm2_` (CBLAS/dznrm2.c:44-75): real part, then imaginary part of every entry -/
+def cnrm2Loop (x : Array (Cx R)) : R × R :=
+  let upd (acc : R × R) (v : R) : R × R :=
+    if v != 0 then
+      let a := f2cAbs v
+      if acc.1 < a then
+        let d := acc.1 / a
+        (a, acc.2 * (d * d) + 1)
+      else
+        let d := a / acc.1
+        (acc.1, acc.2 + d * d)
+    else acc
+  x.foldl (fun acc z => upd (upd acc z.re) z.im) (0, 1)
+end cplx
+
+/-- `ilu_zdrop_row` (double complex): norms `dzasum_/dznrm2_/izamax_` + `z_abs1`, `zaxpy_` with alpha = (1,0),
+`.r += z_abs1`, `omega = min(2(1-alpha)/z_abs1(t), 1)`, `zd_mult / z_add / zz_mult` (slu_dcomplex.h) -/
+def opsC64 : DropOps (Cx Float) Float Float :=
+  { rowNorm := fun nrm x => match nrm with
+      | .one => casumG x / x.size.toFloat
+      | .two =>
+        let nr : Float := if x.size = 0 then 0 else (let ss := cnrm2Loop x; ss.1 * Float.sqrt ss.2)
+        nr / Float.sqrt x.size.toFloat
+      | .inf => Mag.abs1 x[icamaxG x]!
+    add := fun y x => ⟨y.re + (1.0 * x.re - 0.0 * x.im), y.im + (1.0 * x.im + 0.0 * x.re)⟩
+    addAbs := fun y x => ⟨y.re + Mag.abs1 x, y.im⟩
+    absK := fun x => ⟨Mag.abs1 x, 0.0⟩
+    ltTol := fun a b => a < b
+    leTol := fun a b => a ≤ b
+    tolOfR := id
+    zeroR := 0.0
+    oneR := 1.0
+    interp := opsF64.interp
+    diagComp := fun milu alpha fillTol d t =>
+      let w : Float := 2.0 * (1.0 - alpha) / Mag.abs1 t
+      let omega : Float := if w < 1.0 then w else 1.0
+      let t : Cx Float := ⟨t.re * omega, t.im * omega⟩
+      let t1 : Cx Float := ⟨t.re + 1.0, t.im + 0.0⟩
+      let zz : Cx Float := ⟨d.re * t1.re - d.im * t1.im, d.im * t1.re + d.re * t1.im⟩
+      match milu with
+      | .smilu1 => if !(t.re == -1.0 && t.im == 0.0) then (zz, false) else (⟨d.re * fillTol, d.im * fillTol⟩, true)
+      | .smilu2 => let f : Float := 1.0 + Mag.abs1 t; (⟨d.re * f, d.im * f⟩, false)
+      | .smilu3 => (zz, false)
+      | .silu => (d, false)
+    isZero := fun t => t.re == 0.0 && t.im == 0.0
+    negCount := fun k => -(Float.ofNat k) }
+
 end Slu.IluDrop
